@@ -6,16 +6,24 @@
 (* an initial state; TLC steps through its events with HashMap!Apply and   *)
 (* compares the predicted result with the recorded one.  The monitor is    *)
 (* total: the first event the spec cannot explain ends the case with the   *)
-(* verdict "bad" (and the position), every fully explained case ends "ok". *)
+(* verdict "bad" (and the position), every fully explained case ends "ok", *)
+(* a case that needed a named deviation (an open finding, enabled through  *)
+(* VERIF_DEVS) ends "known:<id>".                                          *)
 (***************************************************************************)
-EXTENDS HashMap, Json, IOUtils, TLC
+EXTENDS HashMap, Json, IOUtils, TLC, SequencesExt
 
 (* parse the trace file once (TLC would otherwise re-evaluate the operator) *)
 ASSUME TLCSet(11, ndJsonDeserialize(IOEnv.VERIF_TRACE))
 Cases == TLCGet(11)
 
-VARIABLES ci, pos, verdict, kept
-tvars == <<content, out, ci, pos, verdict, kept>>
+AllDevs == {"gofor-stale-binding"}
+DevStr == IF "VERIF_DEVS" \in DOMAIN IOEnv THEN IOEnv.VERIF_DEVS ELSE ""
+HasDev(d) == ReplaceFirstSubSeq("", d, DevStr) # DevStr
+TraceDevs == {d \in AllDevs : HasDev(d)}
+
+VARIABLES ci, pos, verdict, kept, known,
+          chrs    \* the codes of the live integer keys that were first spelled as characters
+tvars == <<content, out, ci, pos, verdict, kept, known, chrs>>
 
 Evs == Cases[ci].evs
 
@@ -25,23 +33,58 @@ Constrained(o, c) ==
     IF o.op = "json" THEN \A i \in 1..Len(c) : c[i][1][1] = "sym"
     ELSE TRUE
 
+(* A dotted symbol is not one of the key kinds: hget reads it as a path into nested records. *)
+(* The hash may refuse an insertion under it (an error, and nothing changes); if it takes    *)
+(* it, it is the symbol key of that name and every view must show it (Apply).                *)
+Refused(e) == e.op = "hset" /\ e.k[1] = "dsym" /\ e.res[1] = "err"
+
+(* ---- named deviation gofor-stale-binding (an open finding about the real code, used only  *)
+(* when it is listed in VERIF_DEVS).  The infix loop binds its targets with def/mdef in the   *)
+(* one scope of the whole loop; a name that holds a value of one type is not re-bound to a    *)
+(* value of another type, and the refusal is dropped (two targets) or ends the loop with an   *)
+(* error (one target).  So each target shows, at every position, the latest element up to     *)
+(* there that has the type of the first one.  The type of a key is that of its spelling at    *)
+(* its insertion: 'c' and 99 are one key but values of two types (chrs remembers which).      *)
+Spelled(k, cs) == IF k[1] = "int" /\ k[2] \in cs THEN <<"chr", k[2]>> ELSE k
+LastLike(xs, j) == CHOOSE m \in 1..j : xs[m][1] = xs[1][1] /\ \A q \in (m+1)..j : xs[q][1] # xs[1][1]
+Stale(xs) == [j \in 1..Len(xs) |-> xs[LastLike(xs, j)]]
+Mixed(xs) == \E j \in 1..Len(xs) : xs[j][1] # xs[1][1]
+DevGoFor(c, cs, o) ==
+    LET ks == [j \in 1..Len(c) |-> Spelled(c[j][1], cs)]
+        vs == [j \in 1..Len(c) |-> c[j][2]]
+    IN CASE o.op = "rangego"  -> <<"pairs", [j \in 1..Len(c) |-> <<NK(Stale(ks)[j]), Stale(vs)[j]>>]>>
+         [] o.op = "rangego1" -> IF Mixed(ks) THEN Err ELSE <<"keyseq", KeysOf(c)>>
+         [] OTHER -> <<"none">>
+NextChrs(c, cs, e) ==
+    IF e.op = "hset" /\ IndexOf(c, e.k) = 0
+    THEN IF UW(e.k)[1] = "chr" THEN cs \cup {UW(e.k)[2]}
+         ELSE IF UW(e.k)[1] = "int" THEN cs \ {UW(e.k)[2]} ELSE cs
+    ELSE cs
+
 TInit == /\ ci \in 1..Len(Cases) /\ pos = 1 /\ verdict = "run"
-         /\ content = <<>> /\ out = Nil /\ kept = <<>>
+         /\ content = <<>> /\ out = Nil /\ kept = <<>> /\ known = "" /\ chrs = {}
 
 TStep ==
     /\ verdict = "run" /\ pos <= Len(Evs)
     /\ LET e == Evs[pos]
-           a == ApplyK(content, kept, e)
-           okay == ~Constrained(e, content) \/ NormRes(e, e.res) = a.r
-       IN IF okay
+           a == IF Refused(e) THEN [c |-> content, k |-> kept, r |-> Err] ELSE ApplyK(content, kept, e)
+           obs == NormRes(e, e.res)
+           okay == ~Constrained(e, content) \/ obs = a.r
+           dev == IF ~okay /\ e.op \in {"rangego", "rangego1"} /\ "gofor-stale-binding" \in TraceDevs
+                     /\ obs = DevGoFor(content, chrs, e)
+                  THEN "gofor-stale-binding" ELSE ""
+       IN IF okay \/ dev # ""
           THEN /\ content' = a.c /\ out' = a.r /\ kept' = a.k /\ pos' = pos + 1 /\ UNCHANGED <<ci, verdict>>
-          ELSE /\ verdict' = "bad" /\ UNCHANGED <<content, out, ci, pos, kept>>
+               /\ known' = IF known = "" THEN dev ELSE known
+               /\ chrs' = IF Refused(e) THEN chrs ELSE NextChrs(content, chrs, e)
+          ELSE /\ verdict' = "bad" /\ UNCHANGED <<content, out, ci, pos, kept, known, chrs>>
                /\ PrintT(<<"VERDICT", Cases[ci].id, "bad", pos>>)
 
 TDone ==
     /\ verdict = "run" /\ pos > Len(Evs)
-    /\ verdict' = "ok" /\ UNCHANGED <<content, out, ci, pos, kept>>
-    /\ PrintT(<<"VERDICT", Cases[ci].id, "ok", pos - 1>>)
+    /\ verdict' = (IF known = "" THEN "ok" ELSE "known:" \o known)
+    /\ UNCHANGED <<content, out, ci, pos, kept, known, chrs>>
+    /\ PrintT(<<"VERDICT", Cases[ci].id, IF known = "" THEN "ok" ELSE "known:" \o known, pos - 1>>)
 
 TNext == TStep \/ TDone
 TSpec == TInit /\ [][TNext]_tvars
